@@ -4,6 +4,7 @@
 GHOST_DEFS
 #include "contracts/compint.h"
 #include "contracts/hash.h"
+#include "contracts/hashfn.h"
 #include "contracts/zck.h"
 #include "src/lib/zck.c"
 
@@ -116,6 +117,28 @@ void h_set_ioption_pins(void) {
     V_ASSERT(!r || !in.option_is_len || zck->prep_hdr_size == in.value, "C07.set_ioption.length_pinned_exactly");
     V_ASSERT(r || (zck->prep_hash_type == in.prep_hash_type0 && zck->prep_hdr_size == in.prep_hdr_size0), "C07.set_ioption.failure_changes_no_pin");
     V_COVER(r && in.option_is_len); V_COVER(r && !in.option_is_len); V_COVER(!r && in.have_digest && in.err0 == 0 && in.mode == 0 && in.value >= 0);
+}
+
+/* ---- zck_close, read mode (C02) ---- */
+typedef struct { int err0, htype, uncomp_src, live, typed; size_t hu_total0, k1; unsigned hu_seen0, hu_final0; zckCtx any; } IN_cl;
+V_INPUT(IN_cl)
+void h_zck_close_read(void) {
+    IN_cl in = nondet_IN_cl();
+    V_ASSUME(in.err0 >= 0 && in.err0 <= 2 && SPEC_HASH_VALID(in.htype));
+    /* every field the precondition does not mention is arbitrary (the decoder may be in any state) */
+    zckCtx *zck = malloc(sizeof(*zck));
+    V_ASSUME(zck != NULL);
+    *zck = in.any;
+    zck->check_full_hash.ctx = NULL; zck->check_full_hash.type = NULL;
+    zck->mode = ZCK_MODE_READ; zck->error_state = in.err0; zck->has_uncompressed_source = in.uncomp_src;
+    zck->hash_type.type = in.htype; zck->hash_type.digest_size = SPEC_DIGEST_SIZE(in.htype);
+    zck->full_hash_digest = malloc(zck->hash_type.digest_size);
+    V_ASSUME(zck->full_hash_digest != NULL);
+    if(in.live) { zck->check_full_hash.ctx = malloc(1); V_ASSUME(zck->check_full_hash.ctx != NULL); }
+    if(in.typed) zck->check_full_hash.type = &zck->hash_type;
+    g_hu_hash = &zck->check_full_hash; g_hu_total = in.hu_total0; g_hu_seen = in.hu_seen0; g_hu_final = in.hu_final0; g_k1 = in.k1;
+    bool r = zck_close(zck);
+    V_COVER(r && !in.uncomp_src); V_COVER(!r && in.err0 == 0); V_COVER(r && in.uncomp_src);
 }
 
 #ifdef VERIF_NATIVE
